@@ -55,6 +55,15 @@ func (i *rwInterceptor) WriteHeader(statusCode int) {
 		return
 	}
 
+	// Informational responses (e.g. 103 Early Hints) are not the final
+	// response: net/http sends them right away and keeps waiting for the
+	// final status code, so they are forwarded as they are. 101 Switching
+	// Protocols is final and handled below.
+	if statusCode >= 100 && statusCode <= 199 && statusCode != http.StatusSwitchingProtocols {
+		i.w.WriteHeader(statusCode)
+		return
+	}
+
 	i.wroteHeader = true
 
 	for k, vv := range i.w.Header() {
